@@ -1,6 +1,9 @@
 package main
 
-// c10.sm <stream> <fragMs>:<fragNum>:<delThr>:<cleanup> <ev>,<ev>,...
+// c10.sm <stream> <fragMs>:<fragNum>:<delThr>:<cleanup>[:<enable><enable_https>] <ev>,<ev>,...
+//
+// The optional fifth field is hls.enable / hls.enable_https as two digits (10 = default, 01 = https only, 11, 00 =
+// hls off: no muxer at all).
 //
 // The server level around hls.Muxer, on the REAL logic.ServerManager / logic.Group (one stream name):
 //
@@ -62,8 +65,9 @@ func (l *c10Fsl) length() int {
 }
 
 // one attempt; ok=false: an armed task ran earlier than the script wanted (machine too slow), repeat
-func c10smAttempt(stream string, ms, num, thr, mode int, evs []string) (out string, ok bool) {
-	sm := c10ServerManagerCfg(ms, num, thr, mode)
+func c10smAttempt(stream string, ms, num, thr, mode int, sw string, evs []string) (out string, ok bool) {
+	enable, enableHttps := sw[0] == '1', sw[1] == '1'
+	sm := c10ServerManagerSw(ms, num, thr, mode, enable, enableHttps)
 	mem := filesystemlayer.NewFslMemory()
 	fsl := &c10Fsl{inner: mem, closed: map[string]bool{}}
 	old := hls.VerifSetFileSystemLayer(fsl)
@@ -79,12 +83,14 @@ func c10smAttempt(stream string, ms, num, thr, mode int, evs []string) (out stri
 		logic.Log = oldLog
 	}()
 
-	arms := mode == hls.CleanupModeInTheEnd || mode == hls.CleanupModeAsap
+	// a delayed cleanup is expected whenever a muxer was started (enable or enable_https) and the mode says so
+	arms := (enable || enableHttps) && (mode == hls.CleanupModeInTheEnd || mode == hls.CleanupModeAsap)
 	delay := time.Duration(ms*(num+thr)) * time.Millisecond
 	var ctx logic.ICustomizePubSessionContext
 	var grp *logic.Group
 	pending := 0 // tasks armed and not yet waited for
 	fired := 0   // tasks the script has waited for
+	lost := 0    // waits that timed out
 	var tick uint32
 	ranSoFar := func() int { return int(atomic.LoadInt32(&lg.cancels) + atomic.LoadInt32(&lg.cleanups)) }
 	// wait until one more task has run completely
@@ -151,7 +157,9 @@ func c10smAttempt(stream string, ms, num, thr, mode int, evs []string) (out stri
 		case "C":
 			if pending > 0 {
 				if !waitOne() {
-					errOut = "err delayed-task-did-not-run"
+					// no delayed task ran within delay + 1 s: none was armed.  The event made no call; the
+					// oracle (cleanup armed as the mode says) and the model decide whether that is right
+					lost++
 				}
 				pending--
 			}
@@ -200,12 +208,12 @@ func c10smAttempt(stream string, ms, num, thr, mode int, evs []string) (out stri
 	tick++
 	sm.VerifTick(tick)
 	total := fired + pending
+	if lost > 0 {
+		total = fired // what was not armed before is not armed now either
+	}
 	deadline := time.Now().Add(delay + time.Second)
 	for (ranSoFar() < total || atomic.LoadInt32(&fsl.raDone) < atomic.LoadInt32(&lg.cleanups)) && time.Now().Before(deadline) {
 		time.Sleep(500 * time.Microsecond)
-	}
-	if ranSoFar() < total && errOut == "" {
-		errOut = "err delayed-task-did-not-run"
 	}
 	if errOut != "" {
 		return errOut, true
@@ -234,7 +242,11 @@ func init() {
 			evs = strings.Split(a[2], ",")
 		}
 		for attempt := 0; attempt < 6; attempt++ {
-			out, ok := c10smAttempt(a[0], intTok(cf[0]), intTok(cf[1]), intTok(cf[2]), intTok(cf[3]), evs)
+			sw := "10"
+			if len(cf) > 4 {
+				sw = cf[4]
+			}
+			out, ok := c10smAttempt(a[0], intTok(cf[0]), intTok(cf[1]), intTok(cf[2]), intTok(cf[3]), sw, evs)
 			if ok {
 				return out
 			}
